@@ -176,3 +176,78 @@ pub fn c12_hand_parsers() {
     cover!(n == 0, "no tokens");
     cover!(n == 7 && v[6] != 0 && v[0] == 0, "seven tokens, first one unparseable");
 }
+
+/// ASCII whitespace per `char::is_whitespace` restricted to ASCII
+fn ascii_ws(b: u8) -> bool {
+    b == b' ' || (b >= 0x09 && b <= 0x0D)
+}
+
+/// hand-written tokenizer over ASCII bytes: start offsets and lengths of the first two tokens
+fn two_tokens(b: &[u8; 8], len: usize) -> (usize, [(usize, usize); 2]) {
+    let mut toks = [(0usize, 0usize); 2];
+    let mut n = 0usize;
+    let mut i = 0usize;
+    let mut start = 8usize; // 8 = not inside a token
+    while i <= len {
+        let boundary = i == len || ascii_ws(b[i]);
+        if boundary {
+            if start != 8 {
+                if n < 2 {
+                    toks[n] = (start, i - start);
+                }
+                n += 1;
+                start = 8;
+            }
+        } else if start == 8 {
+            start = i;
+        }
+        i += 1;
+    }
+    (n, toks)
+}
+
+fn ascii_token_card(b: &[u8; 8], t: (usize, usize)) -> u32 {
+    if t.1 < 2 {
+        return 0;
+    }
+    let r = rank_of_char(b[t.0] as char);
+    let s = suit_of_char(b[t.0 + 1] as char);
+    if r <= 12 && s <= 3 {
+        word(r, s)
+    } else {
+        0
+    }
+}
+
+/// RAW text: `Two::try_from` on every ASCII string of at most 5 bytes, real `split_whitespace`, against a
+/// hand-written tokenizer (cross-check of the S6 token-stream abstraction on the real splitter)
+#[cfg_attr(kani, kani::proof)]
+#[cfg_attr(kani, kani::unwind(8))]
+pub fn c12_raw_two() {
+    let raw = sym::u64();
+    let bytes: [u8; 8] = raw.to_le_bytes();
+    let len = sym::u8() as usize;
+    sym::assume(len <= 5);
+    let mut i = 0;
+    while i < 5 {
+        sym::assume(i >= len || bytes[i] < 0x80);
+        i += 1;
+    }
+    let text: &'static str = sym::leak_ascii(&bytes, len);
+    let (n, toks) = two_tokens(&bytes, len);
+    let r = Two::try_from(text);
+    if n < 2 {
+        check!(r == Err(HandError::InvalidIndex), "raw text with fewer than two tokens: InvalidIndex");
+    } else {
+        match r {
+            Ok(h) => {
+                check!(h.to_arr()[0] == ascii_token_card(&bytes, toks[0]), "first slot = card of the first token");
+                check!(h.to_arr()[1] == ascii_token_card(&bytes, toks[1]), "second slot = card of the second token");
+            }
+            Err(_) => check!(false, "two tokens: parsing succeeds"),
+        }
+    }
+    cover!(n == 2 && len == 5, "two two-character tokens and one separator");
+    cover!(n == 3, "three one-character tokens");
+    cover!(n == 0 && len == 5, "only whitespace");
+}
